@@ -9,4 +9,997 @@ import Mathlib.Data.List.Perm.Basic
 
 namespace Homonim
 
+/-! ### finite facts about the program -/
+
+def allRes : List Res := [.S, .R, .C, .P]
+theorem allRes_complete (r : Res) : r ∈ allRes := by cases r <;> simp [allRes]
+
+theorem prog_length_le (param : Bool) : (prog param).length ≤ 14 := by cases param <;> decide
+
+theorem instrAt_lt_len {param : Bool} {pc : Nat} {i : Instr} (h : instrAt param pc = some i) :
+    pc < (prog param).length := (List.getElem?_eq_some_iff.mp h).1
+
+theorem instrAt_lt {param : Bool} {pc : Nat} {i : Instr} (h : instrAt param pc = some i) : pc < 14 :=
+  Nat.lt_of_lt_of_le (instrAt_lt_len h) (prog_length_le param)
+
+theorem instrAt_none_iff {param : Bool} {pc : Nat} : instrAt param pc = none ↔ (prog param).length ≤ pc :=
+  List.getElem?_eq_none_iff
+
+theorem local_acq : ∀ param : Bool, ∀ pc, pc < 14 → ∀ r ∈ allRes, ∀ r' ∈ allRes,
+    instrAt param pc = some (.acq r) → (holdsAt param (pc+1) r' = decide (r' = r)) ∧ holdsAt param pc r' = false := by
+  decide
+theorem local_io : ∀ param : Bool, ∀ pc, pc < 14 → ∀ r ∈ allRes, ∀ r' ∈ allRes,
+    instrAt param pc = some (.io r) →
+      holdsAt param (pc+1) r' = decide (r' = r) ∧ holdsAt param pc r' = decide (r' = r) := by
+  decide
+theorem local_rel : ∀ param : Bool, ∀ pc, pc < 14 → ∀ r ∈ allRes, ∀ r' ∈ allRes,
+    instrAt param pc = some (.rel r) → holdsAt param (pc+1) r' = false ∧ holdsAt param pc r' = decide (r' = r) := by
+  decide
+theorem local_compute : ∀ param : Bool, ∀ pc, pc < 14 → ∀ r' ∈ allRes,
+    instrAt param pc = some .compute → holdsAt param (pc+1) r' = false ∧ holdsAt param pc r' = false := by
+  decide
+theorem local_io_unique : ∀ param : Bool, ∀ pc, pc < 14 → ∀ pc', pc' < 14 → ∀ r ∈ allRes,
+    instrAt param pc = some (.io r) → instrAt param pc' = some (.io r) → pc = pc' := by
+  decide
+
+theorem holds_end (param : Bool) (pc : Nat) (r : Res) (h : instrAt param pc = none) : holdsAt param pc r = false := by
+  simp [holdsAt, h]
+theorem holds_zero (param : Bool) (r : Res) : holdsAt param 0 r = false := by
+  cases param <;> cases r <;> decide
+
+theorem holdsAt_instr {param : Bool} {pc : Nat} {r : Res} (h : holdsAt param pc r = true) :
+    instrAt param pc = some (.io r) ∨ instrAt param pc = some (.rel r) := by
+  unfold holdsAt at h
+  split at h
+  · rename_i r' hi; simp at h; subst h; exact Or.inl hi
+  · rename_i r' hi; simp at h; subst h; exact Or.inr hi
+  · simp at h
+
+theorem instrAt_ioC (param : Bool) : instrAt param 9 = some (.io .C) := by cases param <;> decide
+theorem instrAt_ioP : instrAt true 12 = some (.io .P) := by decide
+
+
+/-! ### case view of `step` -/
+
+inductive StepRel (param : Bool) (faults : Faults) (s : SState) (t : Nat) : SState → Prop
+  | take (j : Nat) (rest : List Nat) (hth : s.threads[t]? = some none) (hq : s.queue = j :: rest) :
+      StepRel param faults s t { s with queue := rest, threads := s.threads.set t (some ⟨j, 0⟩) }
+  | fin (ts : TState) (hth : s.threads[t]? = some (some ts)) (hi : instrAt param ts.pc = none) :
+      StepRel param faults s t { s with threads := s.threads.set t none, done := s.done ++ [(ts.job, none)] }
+  | acq (ts : TState) (r : Res) (hth : s.threads[t]? = some (some ts)) (hi : instrAt param ts.pc = some (.acq r))
+      (hfree : s.owner r = none) :
+      StepRel param faults s t
+        { s with threads := s.threads.set t (some ⟨ts.job, ts.pc + 1⟩), owner := setOwner s.owner r (some t) }
+  | rel (ts : TState) (r : Res) (hth : s.threads[t]? = some (some ts)) (hi : instrAt param ts.pc = some (.rel r)) :
+      StepRel param faults s t
+        { s with threads := s.threads.set t (some ⟨ts.job, ts.pc + 1⟩), owner := setOwner s.owner r none }
+  | ioFault (ts : TState) (r : Res) (hth : s.threads[t]? = some (some ts)) (hi : instrAt param ts.pc = some (.io r))
+      (hf : faults ts.job ts.pc = true) :
+      StepRel param faults s t
+        { s with threads := s.threads.set t none, owner := setOwner s.owner r none,
+                 done := s.done ++ [(ts.job, some ts.pc)] }
+  | io (ts : TState) (r : Res) (hth : s.threads[t]? = some (some ts)) (hi : instrAt param ts.pc = some (.io r))
+      (hf : faults ts.job ts.pc = false) :
+      StepRel param faults s t
+        { s with threads := s.threads.set t (some ⟨ts.job, ts.pc + 1⟩),
+                 writes := if r = .C ∨ r = .P then s.writes ++ [(ts.job, r)] else s.writes }
+  | compFault (ts : TState) (hth : s.threads[t]? = some (some ts)) (hi : instrAt param ts.pc = some .compute)
+      (hf : faults ts.job ts.pc = true) :
+      StepRel param faults s t
+        { s with threads := s.threads.set t none, done := s.done ++ [(ts.job, some ts.pc)] }
+  | comp (ts : TState) (hth : s.threads[t]? = some (some ts)) (hi : instrAt param ts.pc = some .compute)
+      (hf : faults ts.job ts.pc = false) :
+      StepRel param faults s t { s with threads := s.threads.set t (some ⟨ts.job, ts.pc + 1⟩) }
+
+theorem step_cases {param : Bool} {faults : Faults} {s s' : SState} {t : Nat}
+    (h : step param faults s t = some s') : StepRel param faults s t s' := by
+  unfold step at h
+  split at h
+  · simp at h
+  · rename_i hth
+    split at h
+    · simp at h
+    · rename_i j rest hq
+      injection h with h; subst h
+      exact .take j rest hth hq
+  · rename_i ts hth
+    split at h
+    · rename_i hi
+      injection h with h; subst h
+      exact .fin ts hth hi
+    · rename_i r hi
+      split at h
+      · simp at h
+      · rename_i hfree
+        injection h with h; subst h
+        refine .acq ts r hth hi ?_
+        cases ho : s.owner r with
+        | none => rfl
+        | some x => simp [ho] at hfree
+    · rename_i r hi
+      injection h with h; subst h
+      exact .rel ts r hth hi
+    · rename_i r hi
+      split at h
+      · rename_i hf
+        injection h with h; subst h
+        exact .ioFault ts r hth hi hf
+      · rename_i hf
+        injection h with h; subst h
+        exact .io ts r hth hi (by simpa using hf)
+    · rename_i hi
+      split at h
+      · rename_i hf
+        injection h with h; subst h
+        exact .compFault ts hth hi hf
+      · rename_i hf
+        injection h with h; subst h
+        exact .comp ts hth hi (by simpa using hf)
+
+/-- conversely, the enabledness facts needed for `progress` -/
+theorem step_isSome_of_running {param : Bool} {faults : Faults} {s : SState} {t : Nat} {ts : TState}
+    (hth : s.threads[t]? = some (some ts))
+    (hacq : ∀ r, instrAt param ts.pc = some (.acq r) → s.owner r = none) :
+    (step param faults s t).isSome = true := by
+  unfold step
+  rw [hth]
+  dsimp only
+  split
+  · rfl
+  · rename_i r hi
+    rw [hacq r hi]; rfl
+  · rfl
+  · split <;> rfl
+  · split <;> rfl
+
+theorem step_isSome_of_idle {param : Bool} {faults : Faults} {s : SState} {t : Nat}
+    (hth : s.threads[t]? = some none) (hq : s.queue ≠ []) :
+    (step param faults s t).isSome = true := by
+  unfold step
+  rw [hth]
+  dsimp only
+  split
+  · rename_i h; exact absurd h hq
+  · rfl
+
+
+/-! ### the lock invariant -/
+
+def thHolds (param : Bool) (th : Option TState) (r : Res) : Bool :=
+  match th with | none => false | some ts => holdsAt param ts.pc r
+
+def LockInv' (param : Bool) (threads : List (Option TState)) (owner : Res → Option Nat) : Prop :=
+  ∀ r t, owner r = some t ↔ ∃ th, threads[t]? = some th ∧ thHolds param th r = true
+
+/-- same statement as `SInv` in Props/C04.lean -/
+def LockInv (param : Bool) (s : SState) : Prop :=
+  ∀ r t, s.owner r = some t ↔ ∃ ts, s.threads[t]? = some (some ts) ∧ holdsAt param ts.pc r = true
+
+theorem lockInv_iff (param : Bool) (s : SState) : LockInv param s ↔ LockInv' param s.threads s.owner := by
+  unfold LockInv LockInv'
+  constructor
+  · intro h r t
+    rw [h r t]
+    constructor
+    · rintro ⟨ts, h1, h2⟩; exact ⟨some ts, h1, h2⟩
+    · rintro ⟨th, h1, h2⟩
+      cases th with
+      | none => simp [thHolds] at h2
+      | some ts => exact ⟨ts, h1, h2⟩
+  · intro h r t
+    rw [h r t]
+    constructor
+    · rintro ⟨th, h1, h2⟩
+      cases th with
+      | none => simp [thHolds] at h2
+      | some ts => exact ⟨ts, h1, h2⟩
+    · rintro ⟨ts, h1, h2⟩; exact ⟨some ts, h1, h2⟩
+
+theorem get_set {α : Type} (l : List α) (t t' : Nat) (v : α) (ht : t < l.length) :
+    (l.set t v)[t']? = if t' = t then some v else l[t']? := by
+  by_cases h : t' = t
+  · subst h; simp [ht]
+  · simp [h, List.getElem?_set_ne (Ne.symm h)]
+
+theorem lt_of_get {α : Type} {l : List α} {t : Nat} {a : α} (h : l[t]? = some a) : t < l.length :=
+  (List.getElem?_eq_some_iff.mp h).1
+
+theorem lock_mutex {param : Bool} {threads : List (Option TState)} {owner : Res → Option Nat}
+    (h : LockInv' param threads owner) {r : Res} {t1 t2 : Nat} {th1 th2 : Option TState}
+    (h1 : threads[t1]? = some th1) (h2 : threads[t2]? = some th2)
+    (hh1 : thHolds param th1 r = true) (hh2 : thHolds param th2 r = true) : t1 = t2 := by
+  have a := (h r t1).2 ⟨th1, h1, hh1⟩
+  have b := (h r t2).2 ⟨th2, h2, hh2⟩
+  rw [a] at b; exact Option.some.inj b
+
+/-- thread `t` changes without changing what it holds -/
+theorem lock_same {param : Bool} {threads : List (Option TState)} {owner : Res → Option Nat}
+    (h : LockInv' param threads owner) {t : Nat} {th v : Option TState} (hth : threads[t]? = some th)
+    (hv : ∀ r, thHolds param v r = thHolds param th r) : LockInv' param (threads.set t v) owner := by
+  have ht := lt_of_get hth
+  intro r t'
+  rw [get_set _ _ _ _ ht]
+  by_cases htt : t' = t
+  · subst htt
+    simp only [if_true]
+    rw [h r t']
+    constructor
+    · rintro ⟨th', h1, h2⟩
+      rw [hth] at h1; cases h1
+      exact ⟨v, rfl, by rw [hv]; exact h2⟩
+    · rintro ⟨th', h1, h2⟩
+      cases h1
+      exact ⟨th, hth, by rw [← hv]; exact h2⟩
+  · simp only [htt, if_false]; exact h r t'
+
+/-- thread `t`, holding exactly `r0`, releases it -/
+theorem lock_release {param : Bool} {threads : List (Option TState)} {owner : Res → Option Nat}
+    (h : LockInv' param threads owner) {t : Nat} {th v : Option TState} {r0 : Res} (hth : threads[t]? = some th)
+    (hold : ∀ r, thHolds param th r = decide (r = r0)) (hv : ∀ r, thHolds param v r = false) :
+    LockInv' param (threads.set t v) (setOwner owner r0 none) := by
+  have ht := lt_of_get hth
+  intro r t'
+  rw [get_set _ _ _ _ ht]
+  unfold setOwner
+  by_cases hr : r = r0
+  · subst hr
+    simp only [if_true]
+    constructor
+    · intro ho; cases ho
+    · rintro ⟨th', h1, h2⟩
+      by_cases htt : t' = t
+      · subst htt; simp only [if_true] at h1; cases h1; rw [hv] at h2; cases h2
+      · simp only [htt, if_false] at h1
+        have : thHolds param th r = true := by rw [hold]; simp
+        exact absurd (lock_mutex h h1 hth h2 this) htt
+  · simp only [hr, if_false]
+    by_cases htt : t' = t
+    · subst htt; simp only [if_true]
+      constructor
+      · intro ho
+        obtain ⟨th', h1, h2⟩ := (h r t').1 ho
+        rw [hth] at h1; cases h1
+        rw [hold] at h2; simp [hr] at h2
+      · rintro ⟨th', h1, h2⟩; cases h1; rw [hv] at h2; cases h2
+    · simp only [htt, if_false]; exact h r t'
+
+/-- thread `t`, holding nothing, acquires the free lock `r0` -/
+theorem lock_acquire {param : Bool} {threads : List (Option TState)} {owner : Res → Option Nat}
+    (h : LockInv' param threads owner) {t : Nat} {th v : Option TState} {r0 : Res} (hth : threads[t]? = some th)
+    (hfree : owner r0 = none)
+    (hold : ∀ r, thHolds param th r = false) (hv : ∀ r, thHolds param v r = decide (r = r0)) :
+    LockInv' param (threads.set t v) (setOwner owner r0 (some t)) := by
+  have ht := lt_of_get hth
+  intro r t'
+  rw [get_set _ _ _ _ ht]
+  unfold setOwner
+  by_cases hr : r = r0
+  · subst hr
+    simp only [if_true]
+    by_cases htt : t' = t
+    · subst htt; simp only [if_true]
+      constructor
+      · intro _; exact ⟨v, rfl, by rw [hv]; simp⟩
+      · intro _; trivial
+    · simp only [htt, if_false]
+      constructor
+      · intro ho; exact absurd (Option.some.inj ho).symm htt
+      · rintro ⟨th', h1, h2⟩
+        have := (h r t').2 ⟨th', h1, h2⟩
+        rw [hfree] at this; cases this
+  · simp only [hr, if_false]
+    by_cases htt : t' = t
+    · subst htt; simp only [if_true]
+      constructor
+      · intro ho
+        obtain ⟨th', h1, h2⟩ := (h r t').1 ho
+        rw [hth] at h1; cases h1
+        rw [hold] at h2; cases h2
+      · rintro ⟨th', h1, h2⟩; cases h1; rw [hv] at h2; simp [hr] at h2
+    · simp only [htt, if_false]; exact h r t'
+
+theorem lockInv_step {param : Bool} {faults : Faults} {s s' : SState} {t : Nat}
+    (h : LockInv param s) (hs : step param faults s t = some s') : LockInv param s' := by
+  rw [lockInv_iff] at h ⊢
+  cases step_cases hs with
+  | take j rest hth hq =>
+    exact lock_same h hth (fun r => by simp [thHolds, holds_zero])
+  | fin ts hth hi =>
+    exact lock_same h hth (fun r => by simp [thHolds, holds_end _ _ _ hi])
+  | acq ts r0 hth hi hfree =>
+    have L := fun r => local_acq param ts.pc (instrAt_lt hi) r0 (allRes_complete _) r (allRes_complete _) hi
+    exact lock_acquire h hth hfree (fun r => by simp only [thHolds]; exact (L r).2)
+      (fun r => by simp only [thHolds]; exact (L r).1)
+  | rel ts r0 hth hi =>
+    have L := fun r => local_rel param ts.pc (instrAt_lt hi) r0 (allRes_complete _) r (allRes_complete _) hi
+    exact lock_release h hth (fun r => by simp only [thHolds]; exact (L r).2)
+      (fun r => by simp only [thHolds]; exact (L r).1)
+  | ioFault ts r0 hth hi hf =>
+    have L := fun r => local_io param ts.pc (instrAt_lt hi) r0 (allRes_complete _) r (allRes_complete _) hi
+    exact lock_release h hth (fun r => by simp only [thHolds]; exact (L r).2) (fun r => rfl)
+  | io ts r0 hth hi hf =>
+    have L := fun r => local_io param ts.pc (instrAt_lt hi) r0 (allRes_complete _) r (allRes_complete _) hi
+    exact lock_same h hth (fun r => by simp only [thHolds]; rw [(L r).1, (L r).2])
+  | compFault ts hth hi hf =>
+    have L := fun r => local_compute param ts.pc (instrAt_lt hi) r (allRes_complete _) hi
+    exact lock_same h hth (fun r => by simp only [thHolds]; rw [(L r).2])
+  | comp ts hth hi hf =>
+    have L := fun r => local_compute param ts.pc (instrAt_lt hi) r (allRes_complete _) hi
+    exact lock_same h hth (fun r => by simp only [thHolds]; rw [(L r).1, (L r).2])
+
+theorem lockInv_init (param : Bool) (jobs : List Nat) (T : Nat) : LockInv param (initState jobs T) := by
+  intro r t
+  simp only [initState]
+  constructor
+  · intro h; cases h
+  · rintro ⟨ts, h1, _⟩
+    rw [List.getElem?_replicate] at h1
+    split at h1 <;> simp at h1
+
+/-- induction principle for runs -/
+theorem runSched_induct {param : Bool} {faults : Faults} (P : SState → Prop)
+    (hstep : ∀ s t s', P s → step param faults s t = some s' → P s') :
+    ∀ (sched : List Nat) (s : SState), P s → P (runSched param faults s sched) := by
+  intro sched
+  induction sched with
+  | nil => intro s h; exact h
+  | cons t ts ih =>
+    intro s h
+    unfold runSched
+    split
+    · rename_i s' hs; exact ih s' (hstep s t s' h hs)
+    · exact ih s h
+
+theorem lockInv_run (param : Bool) (faults : Faults) (jobs : List Nat) (T : Nat) (sched : List Nat) :
+    LockInv param (runSched param faults (initState jobs T) sched) :=
+  runSched_induct (LockInv param) (fun _ _ _ h hs => lockInv_step h hs) sched _ (lockInv_init param jobs T)
+
+
+/-! ### coarse view of `step` for job accounting (lock owners ignored) -/
+
+/-- program positions whose step can raise -/
+def Faultable (param : Bool) (pc : Nat) : Prop :=
+  (∃ r, instrAt param pc = some (.io r)) ∨ instrAt param pc = some .compute
+
+/-- a thread takes a job -/
+def TakeShape (s s' : SState) (t : Nat) : Prop :=
+  ∃ j rest, s.threads[t]? = some none ∧ s.queue = j :: rest ∧ s'.queue = rest ∧
+    s'.threads = s.threads.set t (some ⟨j, 0⟩) ∧ s'.writes = s.writes ∧ s'.done = s.done
+
+/-- a running job executes one instruction successfully -/
+def AdvShape (param : Bool) (faults : Faults) (s s' : SState) (t : Nat) : Prop :=
+  ∃ ts i, s.threads[t]? = some (some ts) ∧ instrAt param ts.pc = some i ∧ s'.queue = s.queue ∧
+    s'.threads = s.threads.set t (some ⟨ts.job, ts.pc + 1⟩) ∧ s'.done = s.done ∧
+    (Faultable param ts.pc → faults ts.job ts.pc = false) ∧
+    ((s'.writes = s.writes ∧ ∀ r, i = .io r → ¬ (r = .C ∨ r = .P)) ∨
+      (∃ r, i = .io r ∧ (r = .C ∨ r = .P) ∧ s'.writes = s.writes ++ [(ts.job, r)]))
+
+/-- a running job ends (normally or by a fault) -/
+def EndShape (param : Bool) (faults : Faults) (s s' : SState) (t : Nat) : Prop :=
+  ∃ ts res, s.threads[t]? = some (some ts) ∧ s'.queue = s.queue ∧ s'.threads = s.threads.set t none ∧
+    s'.writes = s.writes ∧ s'.done = s.done ++ [(ts.job, res)] ∧
+    ((res = none ∧ instrAt param ts.pc = none) ∨
+      (res = some ts.pc ∧ faults ts.job ts.pc = true ∧ Faultable param ts.pc))
+
+theorem step_shape {param : Bool} {faults : Faults} {s s' : SState} {t : Nat}
+    (hs : step param faults s t = some s') :
+    TakeShape s s' t ∨ AdvShape param faults s s' t ∨ EndShape param faults s s' t := by
+  cases step_cases hs with
+  | take j rest hth hq => exact Or.inl ⟨j, rest, hth, hq, rfl, rfl, rfl, rfl⟩
+  | fin ts hth hi => exact Or.inr (Or.inr ⟨ts, none, hth, rfl, rfl, rfl, rfl, Or.inl ⟨rfl, hi⟩⟩)
+  | acq ts r hth hi hfree =>
+    refine Or.inr (Or.inl ⟨ts, _, hth, hi, rfl, rfl, rfl, ?_, Or.inl ⟨rfl, ?_⟩⟩)
+    · rintro (⟨r', h⟩ | h) <;> rw [hi] at h <;> cases h
+    · intro r' h; cases h
+  | rel ts r hth hi =>
+    refine Or.inr (Or.inl ⟨ts, _, hth, hi, rfl, rfl, rfl, ?_, Or.inl ⟨rfl, ?_⟩⟩)
+    · rintro (⟨r', h⟩ | h) <;> rw [hi] at h <;> cases h
+    · intro r' h; cases h
+  | ioFault ts r hth hi hf =>
+    exact Or.inr (Or.inr ⟨ts, some ts.pc, hth, rfl, rfl, rfl, rfl, Or.inr ⟨rfl, hf, Or.inl ⟨r, hi⟩⟩⟩)
+  | io ts r hth hi hf =>
+    by_cases hr : r = .C ∨ r = .P
+    · refine Or.inr (Or.inl ⟨ts, _, hth, hi, rfl, rfl, rfl, fun _ => hf, Or.inr ⟨r, rfl, hr, ?_⟩⟩)
+      simp only [hr, if_true]
+    · refine Or.inr (Or.inl ⟨ts, _, hth, hi, rfl, rfl, rfl, fun _ => hf, Or.inl ⟨?_, ?_⟩⟩)
+      · simp only [hr, if_false]
+      · intro r' h; cases h; exact hr
+  | compFault ts hth hi hf =>
+    exact Or.inr (Or.inr ⟨ts, some ts.pc, hth, rfl, rfl, rfl, rfl, Or.inr ⟨rfl, hf, Or.inr hi⟩⟩)
+  | comp ts hth hi hf =>
+    refine Or.inr (Or.inl ⟨ts, _, hth, hi, rfl, rfl, rfl, fun _ => hf, Or.inl ⟨rfl, ?_⟩⟩)
+    intro r' h; cases h
+
+
+/-! ### counting running jobs -/
+
+theorem sum_map_set {α : Type} (f : α → Nat) (l : List α) (t : Nat) (a v : α) (h : l[t]? = some a) :
+    ((l.set t v).map f).sum + f a = (l.map f).sum + f v := by
+  induction l generalizing t with
+  | nil => simp at h
+  | cons x xs ih =>
+    cases t with
+    | zero =>
+      simp only [List.getElem?_cons_zero, Option.some.injEq] at h
+      subst h
+      simp only [List.set_cons_zero, List.map_cons, List.sum_cons]; omega
+    | succ n =>
+      simp only [List.getElem?_cons_succ] at h
+      have := ih n h
+      simp only [List.set_cons_succ, List.map_cons, List.sum_cons]; omega
+
+def jobInd (j : Nat) : Option TState → Nat
+  | none => 0
+  | some ts => if ts.job = j then 1 else 0
+
+def runCount (j : Nat) (l : List (Option TState)) : Nat := (l.map (jobInd j)).sum
+
+theorem runCount_set (j : Nat) (l : List (Option TState)) (t : Nat) (a v : Option TState) (h : l[t]? = some a) :
+    runCount j (l.set t v) + jobInd j a = runCount j l + jobInd j v :=
+  sum_map_set (jobInd j) l t a v h
+
+theorem runCount_pos {l : List (Option TState)} {t : Nat} {ts : TState} (h : l[t]? = some (some ts)) :
+    1 ≤ runCount ts.job l := by
+  have := runCount_set ts.job l t (some ts) none h
+  simp only [jobInd, if_true] at this
+  omega
+
+/-- two distinct threads running the same job count twice -/
+theorem runCount_two {l : List (Option TState)} {t1 t2 : Nat} {ts1 ts2 : TState} (hne : t1 ≠ t2)
+    (h1 : l[t1]? = some (some ts1)) (h2 : l[t2]? = some (some ts2)) (hj : ts1.job = ts2.job) :
+    2 ≤ runCount ts1.job l := by
+  have a := runCount_set ts1.job l t1 (some ts1) none h1
+  have h2' : (l.set t1 none)[t2]? = some (some ts2) := by
+    rw [List.getElem?_set_ne hne]; exact h2
+  have b := runCount_pos h2'
+  rw [← hj] at b
+  simp only [jobInd, if_true] at a
+  omega
+
+theorem runCount_all_none {l : List (Option TState)} (h : ∀ th ∈ l, th = none) (j : Nat) : runCount j l = 0 := by
+  induction l with
+  | nil => rfl
+  | cons x xs ih =>
+    have hx := h x (List.mem_cons_self)
+    subst hx
+    have := ih (fun th hth => h th (List.mem_cons_of_mem _ hth))
+    simp only [runCount, List.map_cons, List.sum_cons, jobInd] at this ⊢
+    omega
+
+theorem set_running {l : List (Option TState)} {t t' : Nat} {v : Option TState} {ts' : TState}
+    (h : (l.set t v)[t']? = some (some ts')) :
+    (t' = t ∧ v = some ts') ∨ (t' ≠ t ∧ l[t']? = some (some ts')) := by
+  by_cases htt : t' = t
+  · subst htt
+    left
+    rw [List.getElem?_set_self'] at h
+    cases hl : l[t']? with
+    | none => simp [hl] at h
+    | some a => simp [hl] at h; exact ⟨rfl, h⟩
+  · right
+    rw [List.getElem?_set_ne (Ne.symm htt)] at h
+    exact ⟨htt, h⟩
+
+
+/-! ### the job-accounting invariant -/
+
+structure JInv (param : Bool) (faults : Faults) (jobs : List Nat) (T : Nat) (s : SState) : Prop where
+  len : s.threads.length = T
+  cnt : ∀ j, s.queue.count j + runCount j s.threads + (s.done.map Prod.fst).count j = jobs.count j
+  nf_run : ∀ (t : Nat) (ts : TState), s.threads[t]? = some (some ts) → ∀ pc, pc < ts.pc → Faultable param pc → faults ts.job pc = false
+  nf_done : ∀ j, (j, none) ∈ s.done → ∀ pc, Faultable param pc → faults j pc = false
+  f_done : ∀ j pc, (j, some pc) ∈ s.done → faults j pc = true ∧ Faultable param pc
+  wr_run : ∀ (t : Nat) (ts : TState), s.threads[t]? = some (some ts) → ∀ pc r, pc < ts.pc → instrAt param pc = some (.io r) →
+    (r = .C ∨ r = .P) → (ts.job, r) ∈ s.writes
+  wr_done : ∀ j, (j, none) ∈ s.done → ∀ pc r, instrAt param pc = some (.io r) → (r = .C ∨ r = .P) → (j, r) ∈ s.writes
+  wr_sound : ∀ j r, (j, r) ∈ s.writes → (r = .C ∨ r = .P) ∧ (∃ pc, instrAt param pc = some (.io r)) ∧ j ∈ jobs
+
+theorem faultable_lt {param : Bool} {pc : Nat} (h : Faultable param pc) : pc < (prog param).length := by
+  rcases h with ⟨r, h⟩ | h <;> exact instrAt_lt_len h
+
+theorem jinv_init (param : Bool) (faults : Faults) (jobs : List Nat) (T : Nat) :
+    JInv param faults jobs T (initState jobs T) where
+  len := by simp [initState]
+  cnt := by
+    intro j
+    have : runCount j (List.replicate T none) = 0 :=
+      runCount_all_none (fun th hth => (List.mem_replicate.mp hth).2) j
+    simp [initState, this]
+  nf_run := by
+    intro t ts h
+    simp only [initState] at h
+    rw [List.getElem?_replicate] at h
+    split at h <;> simp at h
+  nf_done := by intro j h; simp [initState] at h
+  f_done := by intro j pc h; simp [initState] at h
+  wr_run := by
+    intro t ts h
+    simp only [initState] at h
+    rw [List.getElem?_replicate] at h
+    split at h <;> simp at h
+  wr_done := by intro j h; simp [initState] at h
+  wr_sound := by intro j r h; simp [initState] at h
+
+theorem jinv_running_mem {param : Bool} {faults : Faults} {jobs : List Nat} {T : Nat} {s : SState}
+    (h : JInv param faults jobs T s) {t : Nat} {ts : TState} (hth : s.threads[t]? = some (some ts)) :
+    ts.job ∈ jobs := by
+  have := h.cnt ts.job
+  have := runCount_pos hth
+  exact List.count_pos_iff.mp (by omega)
+
+theorem jinv_step {param : Bool} {faults : Faults} {jobs : List Nat} {T : Nat} {s s' : SState} {t : Nat}
+    (h : JInv param faults jobs T s) (hs : step param faults s t = some s') : JInv param faults jobs T s' := by
+  rcases step_shape hs with ⟨j, rest, hth, hq, hq', hth', hw', hd'⟩ |
+      ⟨ts, i, hth, hi, hq', hth', hd', hnf, hw'⟩ | ⟨ts, res, hth, hq', hth', hw', hd', hres⟩
+  · -- take
+    refine ⟨?_, ?_, ?_, ?_, ?_, ?_, ?_, ?_⟩
+    · rw [hth', List.length_set]; exact h.len
+    · intro j'
+      have c := h.cnt j'
+      have r := runCount_set j' s.threads t none (some ⟨j, 0⟩) hth
+      rw [hq', hth', hd']
+      rw [hq, List.count_cons] at c
+      simp only [jobInd, beq_iff_eq] at r c
+      omega
+    · intro t' ts' ht' pc hpc
+      rw [hth'] at ht'
+      rcases set_running ht' with ⟨_, hv⟩ | ⟨_, hold⟩
+      · cases hv; exact absurd hpc (Nat.not_lt_zero _)
+      · exact h.nf_run t' ts' hold pc hpc
+    · rw [hd']; exact h.nf_done
+    · rw [hd']; exact h.f_done
+    · intro t' ts' ht' pc r hpc
+      rw [hth'] at ht'
+      rcases set_running ht' with ⟨_, hv⟩ | ⟨_, hold⟩
+      · cases hv; exact absurd hpc (Nat.not_lt_zero _)
+      · rw [hw']; exact h.wr_run t' ts' hold pc r hpc
+    · rw [hd', hw']; exact h.wr_done
+    · rw [hw']; exact h.wr_sound
+  · -- advance
+    have hmono : ∀ w, w ∈ s.writes → w ∈ s'.writes := by
+      intro w hw
+      rcases hw' with ⟨e, _⟩ | ⟨r, _, _, e⟩
+      · rw [e]; exact hw
+      · rw [e]; exact List.mem_append_left _ hw
+    refine ⟨?_, ?_, ?_, ?_, ?_, ?_, ?_, ?_⟩
+    · rw [hth', List.length_set]; exact h.len
+    · intro j'
+      have c := h.cnt j'
+      have r := runCount_set j' s.threads t (some ts) (some ⟨ts.job, ts.pc + 1⟩) hth
+      rw [hq', hth', hd']
+      simp only [jobInd] at r
+      omega
+    · intro t' ts' ht' pc hpc hfa
+      rw [hth'] at ht'
+      rcases set_running ht' with ⟨_, hv⟩ | ⟨_, hold⟩
+      · cases hv
+        simp only at hpc ⊢
+        rcases Nat.lt_succ_iff_lt_or_eq.mp hpc with hlt | heq
+        · exact h.nf_run t ts hth pc hlt hfa
+        · subst heq; exact hnf hfa
+      · exact h.nf_run t' ts' hold pc hpc hfa
+    · rw [hd']; exact h.nf_done
+    · rw [hd']; exact h.f_done
+    · intro t' ts' ht' pc r hpc hir hr
+      rw [hth'] at ht'
+      rcases set_running ht' with ⟨_, hv⟩ | ⟨_, hold⟩
+      · cases hv
+        simp only at hpc ⊢
+        rcases Nat.lt_succ_iff_lt_or_eq.mp hpc with hlt | heq
+        · exact hmono _ (h.wr_run t ts hth pc r hlt hir hr)
+        · subst heq
+          rw [hi] at hir
+          cases hir
+          rcases hw' with ⟨_, hno⟩ | ⟨r', e1, _, e2⟩
+          · exact absurd hr (hno r rfl)
+          · cases e1; rw [e2]; exact List.mem_append_right _ (List.mem_singleton.mpr rfl)
+      · exact hmono _ (h.wr_run t' ts' hold pc r hpc hir hr)
+    · intro j' hj' pc r hir hr
+      rw [hd'] at hj'
+      exact hmono _ (h.wr_done j' hj' pc r hir hr)
+    · intro j' r hjr
+      rcases hw' with ⟨e, _⟩ | ⟨r', e1, hr', e2⟩
+      · rw [e] at hjr; exact h.wr_sound j' r hjr
+      · rw [e2] at hjr
+        rcases List.mem_append.mp hjr with hold | hnew
+        · exact h.wr_sound j' r hold
+        · rw [List.mem_singleton] at hnew
+          cases hnew
+          subst e1
+          exact ⟨hr', ⟨ts.pc, hi⟩, jinv_running_mem h hth⟩
+  · -- end
+    refine ⟨?_, ?_, ?_, ?_, ?_, ?_, ?_, ?_⟩
+    · rw [hth', List.length_set]; exact h.len
+    · intro j'
+      have c := h.cnt j'
+      have r := runCount_set j' s.threads t (some ts) none hth
+      rw [hq', hth', hd']
+      simp only [jobInd] at r
+      simp only [List.map_append, List.map_cons, List.map_nil, List.count_append, List.count_cons,
+        List.count_nil, beq_iff_eq]
+      omega
+    · intro t' ts' ht' pc hpc
+      rw [hth'] at ht'
+      rcases set_running ht' with ⟨_, hv⟩ | ⟨_, hold⟩
+      · cases hv
+      · exact h.nf_run t' ts' hold pc hpc
+    · intro j' hj' pc hfa
+      rw [hd'] at hj'
+      rcases List.mem_append.mp hj' with hold | hnew
+      · exact h.nf_done j' hold pc hfa
+      · rw [List.mem_singleton] at hnew
+        cases hnew
+        rcases hres with ⟨_, hend⟩ | ⟨e, _⟩
+        · have := instrAt_none_iff.mp hend
+          exact h.nf_run t ts hth pc (Nat.lt_of_lt_of_le (faultable_lt hfa) this) hfa
+        · cases e
+    · intro j' pc hj'
+      rw [hd'] at hj'
+      rcases List.mem_append.mp hj' with hold | hnew
+      · exact h.f_done j' pc hold
+      · rw [List.mem_singleton] at hnew
+        cases hnew
+        rcases hres with ⟨e, _⟩ | ⟨e, hf, hfa⟩
+        · cases e
+        · cases e; exact ⟨hf, hfa⟩
+    · intro t' ts' ht' pc r hpc
+      rw [hth'] at ht'
+      rcases set_running ht' with ⟨_, hv⟩ | ⟨_, hold⟩
+      · cases hv
+      · rw [hw']; exact h.wr_run t' ts' hold pc r hpc
+    · intro j' hj' pc r hir hr
+      rw [hd'] at hj'
+      rw [hw']
+      rcases List.mem_append.mp hj' with hold | hnew
+      · exact h.wr_done j' hold pc r hir hr
+      · rw [List.mem_singleton] at hnew
+        cases hnew
+        rcases hres with ⟨_, hend⟩ | ⟨e, _⟩
+        · have := instrAt_none_iff.mp hend
+          exact h.wr_run t ts hth pc r (Nat.lt_of_lt_of_le (instrAt_lt_len hir) this) hir hr
+        · cases e
+    · rw [hw']; exact h.wr_sound
+
+theorem jinv_run (param : Bool) (faults : Faults) (jobs : List Nat) (T : Nat) (sched : List Nat) :
+    JInv param faults jobs T (runSched param faults (initState jobs T) sched) :=
+  runSched_induct (JInv param faults jobs T) (fun _ _ _ h hs => jinv_step h hs) sched _
+    (jinv_init param faults jobs T)
+
+
+/-! ### each block is written at most once (needs distinct job ids) -/
+
+structure WInv (param : Bool) (s : SState) : Prop where
+  nodup : s.writes.Nodup
+  notq : ∀ j r, (j, r) ∈ s.writes → j ∉ s.queue
+  run : ∀ j r, (j, r) ∈ s.writes → ∀ (t : Nat) (ts : TState), s.threads[t]? = some (some ts) → ts.job = j →
+    ∃ pc, pc < ts.pc ∧ instrAt param pc = some (.io r)
+
+theorem winv_init (param : Bool) (jobs : List Nat) (T : Nat) : WInv param (initState jobs T) where
+  nodup := by simp [initState]
+  notq := by intro j r h; simp [initState] at h
+  run := by intro j r h; simp [initState] at h
+
+theorem jinv_count_le {param : Bool} {faults : Faults} {jobs : List Nat} {T : Nat} {s : SState}
+    (h : JInv param faults jobs T s) (hnd : jobs.Nodup) (j : Nat) :
+    s.queue.count j + runCount j s.threads + (s.done.map Prod.fst).count j ≤ 1 := by
+  rw [h.cnt j]; exact List.nodup_iff_count.mp hnd j
+
+theorem winv_step {param : Bool} {faults : Faults} {jobs : List Nat} {T : Nat} {s s' : SState} {t : Nat}
+    (hnd : jobs.Nodup) (hj : JInv param faults jobs T s) (h : WInv param s)
+    (hs : step param faults s t = some s') : WInv param s' := by
+  rcases step_shape hs with ⟨j, rest, hth, hq, hq', hth', hw', hd'⟩ |
+      ⟨ts, i, hth, hi, hq', hth', hd', hnf, hw'⟩ | ⟨ts, res, hth, hq', hth', hw', hd', hres⟩
+  · -- take
+    refine ⟨?_, ?_, ?_⟩
+    · rw [hw']; exact h.nodup
+    · intro j' r hjr hmem
+      rw [hw'] at hjr; rw [hq'] at hmem
+      exact h.notq j' r hjr (by rw [hq]; exact List.mem_cons_of_mem _ hmem)
+    · intro j' r hjr t' ts' ht' hjob
+      rw [hw'] at hjr; rw [hth'] at ht'
+      rcases set_running ht' with ⟨_, hv⟩ | ⟨_, hold⟩
+      · cases hv
+        simp only at hjob
+        subst hjob
+        exact absurd (by rw [hq]; exact List.mem_cons_self) (h.notq j r hjr)
+      · exact h.run j' r hjr t' ts' hold hjob
+  · -- advance
+    -- the thread's successor state
+    have hrun_old : ∀ j' r, (j', r) ∈ s.writes → ∀ (t' : Nat) (ts' : TState),
+        (s.threads.set t (some ⟨ts.job, ts.pc + 1⟩))[t']? = some (some ts') → ts'.job = j' →
+        ∃ pc, pc < ts'.pc ∧ instrAt param pc = some (.io r) := by
+      intro j' r hjr t' ts' ht' hjob
+      rcases set_running ht' with ⟨_, hv⟩ | ⟨_, hold⟩
+      · cases hv
+        obtain ⟨pc, hpc, hio⟩ := h.run j' r hjr t ts hth hjob
+        exact ⟨pc, Nat.lt_succ_of_lt hpc, hio⟩
+      · exact h.run j' r hjr t' ts' hold hjob
+    rcases hw' with ⟨e, _⟩ | ⟨r0, e1, hr0, e2⟩
+    · refine ⟨?_, ?_, ?_⟩
+      · rw [e]; exact h.nodup
+      · rw [e, hq']; exact h.notq
+      · rw [e, hth']; exact hrun_old
+    · subst e1
+      have hnew : (ts.job, r0) ∉ s.writes := by
+        intro hmem
+        obtain ⟨pc, hpc, hio⟩ := h.run _ _ hmem t ts hth rfl
+        have := local_io_unique param pc (instrAt_lt hio) ts.pc (instrAt_lt hi) r0 (allRes_complete _) hio hi
+        omega
+      have hle := jinv_count_le hj hnd ts.job
+      have hpos := runCount_pos hth
+      refine ⟨?_, ?_, ?_⟩
+      · rw [e2, List.nodup_append]
+        refine ⟨h.nodup, List.nodup_singleton _, ?_⟩
+        intro a ha b hb
+        rw [List.mem_singleton] at hb
+        subst hb
+        intro hab; subst hab; exact hnew ha
+      · intro j' r hjr
+        rw [e2] at hjr; rw [hq']
+        rcases List.mem_append.mp hjr with hold | hn
+        · exact h.notq j' r hold
+        · rw [List.mem_singleton] at hn
+          cases hn
+          apply List.count_eq_zero.mp
+          omega
+      · intro j' r hjr t' ts' ht' hjob
+        rw [e2] at hjr; rw [hth'] at ht'
+        rcases List.mem_append.mp hjr with hold | hn
+        · exact hrun_old j' r hold t' ts' ht' hjob
+        · rw [List.mem_singleton] at hn
+          cases hn
+          rcases set_running ht' with ⟨_, hv⟩ | ⟨hne, hold⟩
+          · cases hv
+            exact ⟨ts.pc, Nat.lt_succ_self _, hi⟩
+          · have := runCount_two hne hold hth hjob
+            rw [hjob] at this
+            omega
+  · -- end
+    refine ⟨?_, ?_, ?_⟩
+    · rw [hw']; exact h.nodup
+    · rw [hw', hq']; exact h.notq
+    · intro j' r hjr t' ts' ht' hjob
+      rw [hw'] at hjr; rw [hth'] at ht'
+      rcases set_running ht' with ⟨_, hv⟩ | ⟨_, hold⟩
+      · cases hv
+      · exact h.run j' r hjr t' ts' hold hjob
+
+theorem jwinv_run (param : Bool) (faults : Faults) (jobs : List Nat) (hnd : jobs.Nodup) (T : Nat) (sched : List Nat) :
+    JInv param faults jobs T (runSched param faults (initState jobs T) sched) ∧
+      WInv param (runSched param faults (initState jobs T) sched) :=
+  runSched_induct (fun s => JInv param faults jobs T s ∧ WInv param s)
+    (fun _ _ _ h hs => ⟨jinv_step h.1 hs, winv_step hnd h.1 h.2 hs⟩) sched _
+    ⟨jinv_init param faults jobs T, winv_init param jobs T⟩
+
+/-! ### final states -/
+
+theorem final_iff (s : SState) : s.final = true ↔ s.queue = [] ∧ ∀ th ∈ s.threads, th = none := by
+  simp [SState.final, List.all_eq_true, List.isEmpty_iff, Option.isNone_iff_eq_none]
+
+theorem final_not_running {s : SState} (hf : s.final = true) {t : Nat} {ts : TState}
+    (h : s.threads[t]? = some (some ts)) : False := by
+  have := ((final_iff s).mp hf).2 _ (List.mem_of_getElem? h)
+  cases this
+
+theorem final_done_perm {param : Bool} {faults : Faults} {jobs : List Nat} {T : Nat} {s : SState}
+    (h : JInv param faults jobs T s) (hf : s.final = true) : (s.done.map Prod.fst).Perm jobs := by
+  obtain ⟨hq, hth⟩ := (final_iff s).mp hf
+  rw [List.perm_iff_count]
+  intro j
+  have c := h.cnt j
+  rw [hq, runCount_all_none hth] at c
+  simpa using c
+
+theorem final_done_mem {param : Bool} {faults : Faults} {jobs : List Nat} {T : Nat} {s : SState}
+    (h : JInv param faults jobs T s) (hf : s.final = true) {j : Nat} (hj : j ∈ jobs) :
+    ∃ res, (j, res) ∈ s.done := by
+  have := (final_done_perm h hf).mem_iff.mpr hj
+  obtain ⟨⟨j', res⟩, hm, rfl⟩ := List.mem_map.mp this
+  exact ⟨res, hm⟩
+
+theorem final_faulty_fails {param : Bool} {faults : Faults} {jobs : List Nat} {T : Nat} {s : SState}
+    (h : JInv param faults jobs T s) (hf : s.final = true) {j pc : Nat} (hj : j ∈ jobs)
+    (hfault : faults j pc = true) (hinstr : Faultable param pc) : ∃ pc', (j, some pc') ∈ s.done := by
+  obtain ⟨res, hm⟩ := final_done_mem h hf hj
+  cases res with
+  | none =>
+    have := h.nf_done j hm pc hinstr
+    rw [hfault] at this; cases this
+  | some pc' => exact ⟨pc', hm⟩
+
+theorem outcome_ok_iff (s : SState) : s.outcome = .ok ↔ ∀ d ∈ s.done, d.2 = none := by
+  unfold SState.outcome
+  split
+  · rename_i hany
+    constructor
+    · intro h; cases h
+    · intro h
+      obtain ⟨d, hd, hs⟩ := List.any_eq_true.mp hany
+      rw [h d hd] at hs; cases hs
+  · rename_i hany
+    constructor
+    · intro _ d hd
+      cases hd2 : d.2 with
+      | none => rfl
+      | some x =>
+        exact absurd (List.any_eq_true.mpr ⟨d, hd, by rw [hd2]; rfl⟩) hany
+    · intro _; rfl
+
+theorem outcome_raised_of_mem (s : SState) (j pc : Nat) (h : (j, some pc) ∈ s.done) : s.outcome = .raised := by
+  unfold SState.outcome
+  rw [if_pos]
+  exact List.any_eq_true.mpr ⟨(j, some pc), h, rfl⟩
+
+theorem final_ok_written {param : Bool} {faults : Faults} {jobs : List Nat} {T : Nat} {s : SState}
+    (h : JInv param faults jobs T s) (hf : s.final = true) (hok : s.outcome = .ok) {j : Nat} (hj : j ∈ jobs) :
+    (j, Res.C) ∈ s.writes ∧ (param = true → (j, Res.P) ∈ s.writes) := by
+  obtain ⟨res, hm⟩ := final_done_mem h hf hj
+  have := (outcome_ok_iff s).mp hok _ hm
+  simp only at this
+  subst this
+  refine ⟨h.wr_done j hm 9 .C (instrAt_ioC param) (Or.inl rfl), ?_⟩
+  intro hp
+  subst hp
+  exact h.wr_done j hm 12 .P instrAt_ioP (Or.inr rfl)
+
+theorem final_locksFree {param : Bool} {s : SState} (h : LockInv param s) (hf : s.final = true) :
+    s.locksFree = true := by
+  have key : ∀ r, (s.owner r).isNone = true := by
+    intro r
+    cases ho : s.owner r with
+    | none => rfl
+    | some t =>
+      obtain ⟨ts, hts, _⟩ := (h r t).1 ho
+      exact (final_not_running hf hts).elim
+  simp [SState.locksFree, key]
+
+/-- in a final state of a fault-free run, the completed writes are exactly the C (and P) writes of all jobs -/
+theorem final_writes_iff {param : Bool} {jobs : List Nat} {T : Nat} {s : SState}
+    (h : JInv param (fun _ _ => false) jobs T s) (hf : s.final = true) (j : Nat) (r : Res) :
+    (j, r) ∈ s.writes ↔ j ∈ jobs ∧ (r = .C ∨ r = .P) ∧ ∃ pc, instrAt param pc = some (.io r) := by
+  constructor
+  · intro hm
+    obtain ⟨a, b, c⟩ := h.wr_sound j r hm
+    exact ⟨c, a, b⟩
+  · rintro ⟨hj, hr, pc, hpc⟩
+    obtain ⟨res, hm⟩ := final_done_mem h hf hj
+    cases res with
+    | none => exact h.wr_done j hm pc r hpc hr
+    | some pc' => have := (h.f_done j pc' hm).1; cases this
+
+/-! ### no deadlock -/
+
+theorem progress_of_inv {param : Bool} {faults : Faults} {T : Nat} {s : SState} (hT : 0 < T)
+    (hl : LockInv param s) (hlen : s.threads.length = T) (hnf : s.final = false) :
+    ∃ t, (step param faults s t).isSome = true := by
+  by_cases hrun : ∃ (t : Nat) (ts : TState), s.threads[t]? = some (some ts)
+  · obtain ⟨t, ts, hth⟩ := hrun
+    by_cases hblock : ∃ r, instrAt param ts.pc = some (.acq r) ∧ (s.owner r).isSome = true
+    · -- blocked on a held lock: its owner can step
+      obtain ⟨r, _, ho⟩ := hblock
+      obtain ⟨t', ho'⟩ := Option.isSome_iff_exists.mp ho
+      obtain ⟨ts', hth', hh⟩ := (hl r t').1 ho'
+      refine ⟨t', step_isSome_of_running hth' ?_⟩
+      intro r' hi'
+      rcases holdsAt_instr hh with h | h <;> rw [hi'] at h <;> cases h
+    · refine ⟨t, step_isSome_of_running hth ?_⟩
+      intro r hi
+      cases ho : s.owner r with
+      | none => rfl
+      | some x => exact absurd ⟨r, hi, by rw [ho]; rfl⟩ hblock
+  · -- all threads idle: the queue is non-empty and thread 0 takes a job
+    have hall : ∀ th ∈ s.threads, th = none := by
+      intro th hmem
+      obtain ⟨t, ht⟩ := List.getElem?_of_mem hmem
+      cases th with
+      | none => rfl
+      | some ts => exact absurd ⟨t, ts, ht⟩ hrun
+    have hq : s.queue ≠ [] := by
+      intro hq
+      have : s.final = true := (final_iff s).mpr ⟨hq, hall⟩
+      rw [hnf] at this; cases this
+    have h0 : 0 < s.threads.length := by omega
+    have hth0 : s.threads[0]? = some none := by
+      rw [List.getElem?_eq_getElem h0]
+      exact congrArg some (hall _ (List.getElem_mem h0))
+    exact ⟨0, step_isSome_of_idle hth0 hq⟩
+
+
+/-! ### disjoint block writes -/
+
+theorem applyWrites_cons {α : Type} (cover : Nat → Nat → Bool) (val : Nat → Nat → α) (init : Nat → α)
+    (b : Nat) (ws : List Nat) :
+    applyWrites cover val init (b :: ws) =
+      applyWrites cover val (fun x => if cover b x then val b x else init x) ws := rfl
+
+/-- a pixel no block covers keeps its initial value -/
+theorem applyWrites_not_covered {α : Type} (cover : Nat → Nat → Bool) (val : Nat → Nat → α) (init : Nat → α)
+    (ws : List Nat) (x : Nat) (h : ∀ b ∈ ws, cover b x = false) : applyWrites cover val init ws x = init x := by
+  induction ws generalizing init with
+  | nil => rfl
+  | cons b ws ih =>
+    rw [applyWrites_cons, ih _ (fun b' hb' => h b' (List.mem_cons_of_mem _ hb'))]
+    simp [h b List.mem_cons_self]
+
+/-- a pixel covered by exactly one block of the list gets that block's value -/
+theorem applyWrites_covered {α : Type} (cover : Nat → Nat → Bool) (val : Nat → Nat → α) (init : Nat → α)
+    (ws : List Nat) (x b : Nat) (hb : b ∈ ws) (hc : cover b x = true)
+    (huniq : ∀ b' ∈ ws, cover b' x = true → b' = b) : applyWrites cover val init ws x = val b x := by
+  induction ws generalizing init with
+  | nil => cases hb
+  | cons b0 ws ih =>
+    rw [applyWrites_cons]
+    by_cases hmem : b ∈ ws
+    · exact ih _ hmem (fun b' hb' => huniq b' (List.mem_cons_of_mem _ hb'))
+    · have hb0 : b = b0 := by
+        rcases List.mem_cons.mp hb with h | h
+        · exact h
+        · exact absurd h hmem
+      subst hb0
+      rw [applyWrites_not_covered]
+      · simp [hc]
+      · intro b' hb'
+        cases hcb : cover b' x with
+        | false => rfl
+        | true =>
+          have := huniq b' (List.mem_cons_of_mem _ hb') hcb
+          subst this; exact absurd hb' hmem
+
+theorem applyWrites_perm {α : Type} (cover : Nat → Nat → Bool) (val : Nat → Nat → α) (init : Nat → α)
+    (ws ws' : List Nat) (hperm : ws.Perm ws')
+    (hdisj : ∀ b ∈ ws, ∀ b' ∈ ws, b ≠ b' → ∀ x, ¬ (cover b x = true ∧ cover b' x = true)) :
+    applyWrites cover val init ws = applyWrites cover val init ws' := by
+  funext x
+  by_cases hex : ∃ b ∈ ws, cover b x = true
+  · obtain ⟨b, hb, hc⟩ := hex
+    have huniq : ∀ b' ∈ ws, cover b' x = true → b' = b := by
+      intro b' hb' hc'
+      by_contra hne
+      exact hdisj b' hb' b hb hne x ⟨hc', hc⟩
+    rw [applyWrites_covered cover val init ws x b hb hc huniq,
+      applyWrites_covered cover val init ws' x b (hperm.mem_iff.mp hb) hc
+        (fun b' hb' => huniq b' (hperm.mem_iff.mpr hb'))]
+  · have hno : ∀ b ∈ ws, cover b x = false := by
+      intro b hb
+      cases hc : cover b x with
+      | false => rfl
+      | true => exact absurd ⟨b, hb, hc⟩ hex
+    rw [applyWrites_not_covered cover val init ws x hno,
+      applyWrites_not_covered cover val init ws' x (fun b hb => hno b (hperm.mem_iff.mpr hb))]
+
+/-! ### the writes of one file, as a list of block ids -/
+
+def fileWrites (s : SState) (r : Res) : List Nat := (s.writes.filter fun w => w.2 = r).map Prod.fst
+
+theorem mem_fileWrites (s : SState) (r : Res) (j : Nat) : j ∈ fileWrites s r ↔ (j, r) ∈ s.writes := by
+  unfold fileWrites
+  constructor
+  · intro h
+    obtain ⟨⟨j', r'⟩, hm, rfl⟩ := List.mem_map.mp h
+    obtain ⟨hm', hr⟩ := List.mem_filter.mp hm
+    simp only [decide_eq_true_eq] at hr
+    subst hr; exact hm'
+  · intro h
+    exact List.mem_map.mpr ⟨(j, r), List.mem_filter.mpr ⟨h, by simp⟩, rfl⟩
+
+theorem fileWrites_nodup (s : SState) (r : Res) (h : s.writes.Nodup) : (fileWrites s r).Nodup := by
+  unfold fileWrites
+  apply List.Nodup.map_on _ (h.filter _)
+  rintro ⟨j1, r1⟩ h1 ⟨j2, r2⟩ h2 he
+  have e1 := (List.mem_filter.mp h1).2
+  have e2 := (List.mem_filter.mp h2).2
+  simp only [decide_eq_true_eq] at e1 e2 he
+  subst e1 e2 he
+  rfl
+
+/-- two final fault-free states (any thread counts, any schedules) have written the same blocks to each file -/
+theorem final_fileWrites_perm {param : Bool} {jobs : List Nat} {T1 T2 : Nat} {s1 s2 : SState}
+    (h1 : JInv param (fun _ _ => false) jobs T1 s1) (w1 : WInv param s1)
+    (h2 : JInv param (fun _ _ => false) jobs T2 s2) (w2 : WInv param s2)
+    (hf1 : s1.final = true) (hf2 : s2.final = true) (r : Res) :
+    (fileWrites s1 r).Perm (fileWrites s2 r) := by
+  rw [List.perm_ext_iff_of_nodup (fileWrites_nodup s1 r w1.nodup) (fileWrites_nodup s2 r w2.nodup)]
+  intro j
+  rw [mem_fileWrites, mem_fileWrites, final_writes_iff h1 hf1, final_writes_iff h2 hf2]
+
 end Homonim
